@@ -7,7 +7,7 @@
 (*                                                                         *)
 (*   reset  the source glyph G (absolute coordinates in units of 1/GUnit)  *)
 (*          and defaultWidthX / nominalWidthX read from the emitted        *)
-(*          Private DICT (units of 1/Unit)                                 *)
+(*          Private DICT (rounded to units of 1/GUnit)                     *)
 (*   op     operands and operator: must be an ENABLED step of the machine  *)
 (*          (legal operand count, stack <= 48, nothing after endchar)      *)
 (*   end    the machine must have executed endchar and its path, stems,    *)
@@ -31,7 +31,8 @@ VARIABLES l,    \* next line of the trace
 tvars == <<l, mm, G, skip>>
 
 E == Trace[l]
-NoG == [w |-> 0, hs |-> <<>>, vs |-> <<>>, cmds |-> <<>>, dw |-> 0, nw |-> 0]
+NoG == [w |-> 0, hs |-> <<>>, vs |-> <<>>, cmds |-> <<>>, dwq |-> 0, nwq |-> 0,
+        dwexact |-> TRUE, nwexact |-> TRUE, dwok |-> TRUE, nwok |-> TRUE]
 Init == l = 1 /\ mm = M0 /\ G = NoG /\ skip = FALSE /\ TLCSet(1, 0) /\ TLCSet(2, 0)
 Consume == l' = l + 1 /\ TLCSet(1, l)
 Is(ev) == l <= Len(Trace) /\ E.ev = ev
@@ -41,10 +42,11 @@ Is(ev) == l <= Len(Trace) /\ E.ev = ev
 Bad(what) == PrintT(<<"BAD", l, E.case, E.gid, what>>) /\ TLCSet(2, TLCGet(2) + 1)
 
 Reset == /\ Is("reset")
-         /\ G' = [w |-> E.w, hs |-> E.hs, vs |-> E.vs, cmds |-> E.cmds, dw |-> E.dw, nw |-> E.nw]
+         /\ G' = [w |-> E.w, hs |-> E.hs, vs |-> E.vs, cmds |-> E.cmds,
+                  dwq |-> E.dwq, nwq |-> E.nwq, dwexact |-> E.dwexact, nwexact |-> E.nwexact,
+                  dwok |-> E.dwok, nwok |-> E.nwok]
          /\ mm' = M0
          /\ IF E.gunit # GUnit \/ E.unit # Unit THEN Bad(<<"wrong units for this configuration">>) /\ skip' = TRUE
-            ELSE IF ~E.wexact THEN Bad(<<"defaultWidthX/nominalWidthX not representable">>) /\ skip' = TRUE
             ELSE skip' = FALSE
          /\ Consume
 
@@ -55,6 +57,9 @@ Step == /\ Is("op")
                     m2   == RunToks(mm, toks)
                 IN IF ~E.exact
                      THEN Bad(<<"operand not representable in 1/Unit or out of range", E.op>>)
+                          /\ skip' = TRUE /\ UNCHANGED mm
+                   ELSE IF m2.st = "unmodelled"
+                     THEN Bad(<<"coordinates leave the modelled range", E.op, Len(E.args)>>)
                           /\ skip' = TRUE /\ UNCHANGED mm
                    ELSE IF m2.st \notin {"run", "done"}
                      THEN Bad(<<"operator not enabled (operand count, stack limit or order)",
@@ -71,23 +76,33 @@ SameCmd(d, w) ==
   /\ IF d[1] \in {"hm", "cm"} THEN \A k \in 2..Len(d) : d[k] = w[k]
      ELSE \A k \in 2..Len(d) : Close(d[k], w[k])
 
-\* why the final machine state is not the source glyph ("" if it is)
-Verdict ==
-  IF mm.st # "done" THEN <<"the charstring does not end with endchar", mm.st>>
-  ELSE LET r == Meaning(mm, G.dw, G.nw)
-           badcmd == {i \in 1..Len(r.path) : i > Len(G.cmds) \/ ~SameCmd(r.path[i], G.cmds[i])} IN
-       IF Len(r.path) # Len(G.cmds) THEN <<"path length", Len(r.path), Len(G.cmds)>>
-       ELSE IF badcmd # {} THEN LET i == CHOOSE j \in badcmd : \A q \in badcmd : j <= q IN
-                                <<"path command differs", i, r.path[i], G.cmds[i]>>
-       ELSE IF ~SameSeq(r.hs, G.hs) THEN <<"hstem", r.hs, G.hs>>
-       ELSE IF ~SameSeq(r.vs, G.vs) THEN <<"vstem", r.vs, G.vs>>
-       ELSE IF ~Close(r.width, G.w)
-         THEN <<"width (decoded, G, defaultWidthX, nominalWidthX)", r.width, G.w, G.dw, G.nw>>
-       ELSE <<>>
+\* every respect in which the final machine state is not the source glyph (<<>> if it is)
+Verdicts ==
+  IF mm.st # "done" THEN << <<"the charstring does not end with endchar", mm.st>> >>
+  ELSE LET r == Meaning(mm, 0, 0)
+           badcmd == {i \in 1..Len(r.path) : i > Len(G.cmds) \/ ~SameCmd(r.path[i], G.cmds[i])}
+           \* The advance width in units of 1/GUnit.  The width defaults of the Private DICT are
+           \* decimal numbers: the harness logs them rounded to 1/GUnit with an exactness flag, and
+           \* an inexact default widens the tolerance by one unit (never a false alarm).
+           usesDW == mm.w = <<>>
+           wq     == IF usesDW THEN G.dwq ELSE G.nwq + R * mm.w[1]
+           slack  == IF (usesDW /\ G.dwexact) \/ (~usesDW /\ G.nwexact) THEN 0 ELSE 1
+       IN (IF Len(r.path) # Len(G.cmds) THEN << <<"path length", Len(r.path), Len(G.cmds)>> >>
+           ELSE IF badcmd # {} THEN LET i == CHOOSE j \in badcmd : \A q \in badcmd : j <= q IN
+                                    << <<"path command differs", i, r.path[i], G.cmds[i]>> >>
+           ELSE <<>>)
+          \o (IF ~SameSeq(r.hs, G.hs) THEN << <<"hstem", r.hs, G.hs>> >> ELSE <<>>)
+          \o (IF ~SameSeq(r.vs, G.vs) THEN << <<"vstem", r.vs, G.vs>> >> ELSE <<>>)
+          \o (IF (usesDW /\ ~G.dwok) \/ (~usesDW /\ ~G.nwok)
+                THEN << <<"width: the default used by this glyph is not a sane number", mm.w>> >>
+              ELSE IF Abs(wq - G.w) > R \div 2 + slack
+                THEN << <<"width (decoded, G, defaultWidthX, nominalWidthX; units of 1/GUnit)",
+                          wq, G.w, G.dwq, G.nwq>> >>
+              ELSE <<>>)
 
 End == /\ Is("end")
        /\ IF skip THEN TRUE
-          ELSE LET v == Verdict IN IF v = <<>> THEN TRUE ELSE Bad(v)
+          ELSE LET v == Verdicts IN \A i \in 1..Len(v) : Bad(v[i])
        /\ skip' = FALSE
        /\ UNCHANGED <<mm, G>> /\ Consume
 
